@@ -124,16 +124,18 @@ def eval_invariants(eng, s, st):
     k = loop_index(eng, s)
     clauses = eng.loop_invariants.get(k, [])
     out = []
-    for ci, cl in enumerate(clauses):
-        lam = cl['args'][0]
-        saved_mode = eng.spec_mode
-        eng.spec_mode = True
-        try:
-            for v, _ in calls.call_lambda(eng, FnV('lambda', '<inv>', lam.node, {**lam.env, **eng.spec_funcs_env()}), [], st.fork()):
+    saved_mode, saved_funcs = eng.spec_mode, eng.spec_funcs
+    eng.spec_mode = True
+    eng.spec_funcs = dict(eng.inv_funcs)
+    try:
+        for ci, cl in enumerate(clauses):
+            lam = cl['args'][0]
+            st2 = st.fork()
+            for v, _ in calls.call_lambda(eng, FnV('lambda', '<inv>', lam.node, {}), [], st2):
                 out.append((cl['kwargs'].get('label', 'inv%d' % ci), to_bool(v)))
                 break
-        finally:
-            eng.spec_mode = saved_mode
+    finally:
+        eng.spec_mode, eng.spec_funcs = saved_mode, saved_funcs
     return out, k
 
 
